@@ -54,6 +54,8 @@ class ParserRig:
             exc = [1, 1]
         except NetconfFramingError:
             exc = [1, 2]
+        except ParseDidNotReturn:
+            exc = list(DID_NOT_RETURN)
         except BaseException as e:              # always a disagreement
             exc = [1, 50, type(e).__name__]
         evs = []
@@ -70,9 +72,63 @@ class ParserRig:
         return [evs, self._buffer.getvalue(), third, 1 if self.dead else 0]
 
 
+# A parse() that does not RETURN is a failing input like any other ("never wedge a session"): every parser-level stream runs
+# under a limit of PARSE_LIMIT_S seconds of CPU time of this process (ITIMER_VIRTUAL: a spinning parser burns CPU; a loaded
+# machine does not make the limit fire; ITIMER_REAL/SIGALRM is left to check.py's global watchdog).  The signal interrupts
+# parse() in the main thread; the record of that segment ends in [1, 60, 'parse did not return ...'] and the rig is dead.
+PARSE_LIMIT_S = 2.0
+DID_NOT_RETURN = [1, 60, 'parse did not return within %g s of CPU time (spins: the session thread would be wedged)' % PARSE_LIMIT_S]
+
+class ParseDidNotReturn(BaseException):
+    pass
+
+_guard_state = {'installed': False, 'armed': False}
+
+def _vt_expired(signum, frame):
+    if _guard_state['armed']:            # a signal that arrives after the stream ended is ignored
+        _guard_state['armed'] = False
+        raise ParseDidNotReturn()
+
+def _guard_on():
+    """arm the per-stream limit; False where it cannot be (not the main thread / no setitimer)"""
+    import signal
+    if threading.current_thread() is not threading.main_thread() or not hasattr(signal, 'setitimer'):
+        return False
+    if not _guard_state['installed']:
+        signal.signal(signal.SIGVTALRM, _vt_expired); _guard_state['installed'] = True
+    _guard_state['armed'] = True
+    signal.setitimer(signal.ITIMER_VIRTUAL, PARSE_LIMIT_S)
+    return True
+
+def _guard_off():
+    import signal
+    _guard_state['armed'] = False
+    signal.setitimer(signal.ITIMER_VIRTUAL, 0)
+
+def did_not_return(records):
+    """index of the segment during which parse() did not return, or None"""
+    for i, r in enumerate(records):
+        if any(e[:2] == [1, 60] for e in r[0]):
+            return i
+    return None
+
+
 def run_parser(base, segs):
     rig = ParserRig(base)
-    return [rig.feed(s) for s in segs]
+    out = []
+    armed = _guard_on()
+    try:
+        try:
+            for s in segs:
+                out.append(rig.feed(s))
+        finally:
+            if armed: _guard_off()
+    except ParseDidNotReturn:            # fired outside feed's own handler (between two feeds): same verdict
+        rig.dead = True
+        out.append([[list(DID_NOT_RETURN)], b'', 0 if base == 10 else b'', 1])
+    while len(out) < len(segs):
+        out.append([[], b'', 0 if base == 10 else b'', 1])
+    return out
 
 
 def flat_events(records):
@@ -210,6 +266,11 @@ def judge(base, segs, records=None, oevents=None):
     exp = expected_timeline(oracle(base, stream) if oevents is None else oevents, [len(s) for s in segs])
     act = flat_events(records)
     ex_c = [[i, e] for i, e in exp]; ac_c = [[i, e] for i, e in act]
+    stuck = did_not_return(records)
+    if stuck is not None:
+        return False, ('parse did not return: DefaultXMLParser.parse(segment %d = %r) was still running after %g s of CPU time - the session '
+                       'thread would spin for ever on this stream: nothing further is framed, pending requests are neither answered nor failed'
+                       % (stuck, bytes(segs[stuck])[:60], PARSE_LIMIT_S)), 'parse_did_not_return', ex_c, ac_c
     if exp == [(i, e) for i, e in act]:
         return True, '', None, ex_c, ac_c
     e_ev, a_ev = [e for _, e in exp], [e for _, e in act]
